@@ -193,8 +193,15 @@ func (e *Engine) step(fr *Frame, st *State, in ssa.Instruction) bool {
 		fr.regs[x] = e.makeSlice(fr, st, x)
 	case *ssa.MakeMap, *ssa.MakeChan, *ssa.MakeClosure:
 		v := in.(ssa.Value)
-		h := e.fresh(SInt, "ref")
-		e.assume(app(SBool, ">", h, IntLit(0)))
+		var h Term
+		if _, isMap := in.(*ssa.MakeMap); isMap {
+			// maps are regions: a new map has a fresh region id
+			h = st.alloc
+			st.alloc = app(SInt, "+", st.alloc, IntLit(1))
+		} else {
+			h = e.fresh(SInt, "ref")
+			e.assume(app(SBool, ">", h, IntLit(0)))
+		}
 		fr.regs[v] = Scalar{h, v.Type()}
 		if mm, ok := in.(*ssa.MakeMap); ok {
 			e.mapInitEmpty(st, h, mm.Type())
